@@ -482,13 +482,20 @@ fn sweep_case(i: u64, max_gap: u64, seed: u64) -> Option<Pair> {
 }
 
 /// special representations for the decimal operand: zero carrying a scale, +-one written as 1.00..0,
-/// a power of ten written with a scale (10^k e-j), otherwise the generated decimal
+/// a power of ten written with a scale (10^k e-j), a value that equals one in its low limbs only, otherwise the generated decimal
 fn specialise(a: D, sel: u8, r: u64) -> D {
     match sel {
         0 => D::new("0", (r % 81) as i64 - 40),
         1 | 2 => {
             let z = (r % 61) as usize;
             D::new(format!("{}1{}", if sel == 2 { "-" } else { "" }, "0".repeat(z)), z as i64)
+        }
+        4 => {
+            // "almost one": 10^z + k * 2^64 (or 2^32, 2^128) written with scale z - equal to one in its low limbs only
+            let z = 1 + (r % 19) as usize;
+            let k = num_bigint::BigInt::from(1 + (r >> 8) % 7) << [64usize, 32, 128, 64][((r >> 16) % 4) as usize];
+            let v = num_bigint::BigInt::from(10u8).pow(z as u32) + k;
+            D::new(format!("{}{}", if r & (1 << 41) != 0 { "-" } else { "" }, v), z as i64)
         }
         3 => {
             let (k, j) = ((r % 50) as usize, ((r / 50) % 61) as i64 - 20);
